@@ -130,7 +130,9 @@ def check_case(case):
                     obj = pickle.load(f)
                     rest = f.read()
                 h, offs, s1, s2 = obj
-                if _sig(offs) != want_sig or s1.pattern != want_search or s2.pattern != want_search or rest:
+                # (bytes after the pickle's STOP opcode are never read by the loader: a complete, equal table followed by stray
+                # bytes is a complete cache — found as a false alarm of this check by the thorough tier: prefix N-2 + b'.\x00')
+                if _sig(offs) != want_sig or s1.pattern != want_search or s2.pattern != want_search:
                     fail = ("disk", "cache on disk after load is not an equal, complete table")
             except Exception as e:
                 fail = ("disk", "cache on disk after load does not unpickle: %s" % type(e).__name__)
